@@ -62,6 +62,13 @@ prop("C07",
   explanation="Theorems in lean/BedVerif/Props/C07.lean; loop invariant in Lemmas/MergeBed.lean. Correspondence: the groups handed to the closure of merge_sorted_bed_with and the output of merge_sorted_bed on sorted sequences; spec evaluated in Lean on the implementation's groups and ranges.",
   classes=["chrom-change-overlapping-coords", "book-ended", "gap-of-one", "nested-smaller-end", "duplicates", "zero-length", "empty", "single"])
 
+prop("C08",
+  level_text="Proof (Lean 4): for every sorted sequence of non-empty bedGraph records with values in Z, merge_sorted_bedgraph returns records that are non-empty, sorted, pairwise non-overlapping, cover exactly the positions covered by the input, carry at every covered position the sum of the values of the covering input records, and are maximal (adjacent outputs on one chromosome differ in value) (C08_bedgraph, all seven clauses, no bound on sizes or coordinates). The sort of the breakpoints is unstable in the Rust: C08_order_independent proves the sweep result is the same for every position-sorted permutation. Proof: chunk sums are the per-position net change; prefix sums telescope to the covering sum; sweep invariant = maximal RLE of the step function so far; lift over the groups of C07.",
+  level_note="Trusted: " + KERNEL + "; " + MODEL + "; " + HARN + "; itertools sorted_unstable_by_key = some key-sorted permutation (quantified over in C08_order_independent), chunk_by = maximal runs of equal key; values are mathematical integers (i64 in the harness, small enough not to overflow); " + NAT + ".",
+  explanation="Theorems in lean/BedVerif/Props/C08.lean; lemmas in Lemmas/C08{Chunk,Sweep,Group,Single,Lift}.lean (about 1150 lines). Correspondence: output of merge_sorted_bedgraph::<i64> on sorted sequences; the spec (pointwise sum at every breakpoint, cover, maximality) is evaluated in Lean on the implementation's output.",
+  classes=["mixed-sign-same-start", "cancel-to-zero", "zero-value", "many-at-one-position", "book-ended-equal", "book-ended-different", "several-chromosomes", "identical"],
+  extra_trusted=["itertools sorted_unstable_by_key / chunk_by contracts"])
+
 if __name__ == "__main__":
     json.dump(P, open(os.path.join(V, "props_meta.json"), "w"), indent=1, ensure_ascii=False)
     subprocess.check_call([sys.executable, os.path.join(V, "tools", "gen_manifest.py")])
